@@ -238,7 +238,10 @@ const FILTERS: [(&str, &[&str]); 3] = [
 
 fn hook(name: &'static str) {
     let f = FILTER.load(Ordering::Relaxed);
-    if FILTERS[f].1.contains(&name) {
+    // a hook point this explorer does not know (added to the library later) is always a
+    // scheduling point: it marks state somebody thought worth marking
+    let known = FILTERS.iter().any(|(_, names)| names.contains(&name));
+    if FILTERS[f].1.contains(&name) || !known {
         shuttle::thread::yield_now();
     }
 }
